@@ -257,7 +257,13 @@ let err_text = function
   | 3 -> "Invalid_name_in_a_DNS_record:_Non-ASCII_character_in_a_label"
   | 4 -> "Parse_error"
   | 5 -> "Invalid_DNS_packet:_A_DNS_packet_can_only_contain_up_to_one_question"
-  | _ -> "Invalid_name_in_a_DNS_record:_A_non-empty_name_cannot_start_with_a_NUL_byte"
+  | 6 -> "Invalid_name_in_a_DNS_record:_A_non-empty_name_cannot_start_with_a_NUL_byte"
+  | 7 -> "Invalid_name_in_a_DNS_record:_Empty_name"
+  | 8 -> "Invalid_name_in_a_DNS_record:_Invalid_internal_offset"
+  | 9 -> "Invalid_name_in_a_DNS_record:_Forward/self_reference"
+  | 10 -> "Invalid_name_in_a_DNS_record:_Label_length_too_long"
+  | 11 -> "Invalid_name_in_a_DNS_record:_Out-of-bounds_name"
+  | _ -> "Invalid_name_in_a_DNS_record:_Unexpected_character_in_name"
 
 (* C16: the schedule is run by the Gallina slot model; failing calls print rc=-1 *)
 let run_schedule (steps : string) : string =
@@ -267,7 +273,7 @@ let run_schedule (steps : string) : string =
         match split_on ':' s with
         | [t; a] ->
           let t = nat_of_int (int_of_string t) in
-          if a.[0] = 'f' then CFail (t, n_of_int (1 + (int_of_string (String.sub a 1 (String.length a - 1)) mod 7)))
+          if a.[0] = 'f' then CFail (t, n_of_int (1 + (int_of_string (String.sub a 1 (String.length a - 1)) mod 13)))
           else CRead t
         | _ -> failwith "bad schedule step")
       (split_on '.' steps)
@@ -290,7 +296,7 @@ let run_schedule (steps : string) : string =
 
 (* C16: thread 0 fails and stays alive, n short-lived threads then fail one after the other, thread 0 reads *)
 let run_sequential (n : int) : string =
-  let rec build i t acc = if i > n then List.rev acc else build (i + 1) (S t) (CFail (S t, n_of_int (1 + ((1 + i mod 4) mod 7))) :: acc) in
+  let rec build i t acc = if i > n then List.rev acc else build (i + 1) (S t) (CFail (S t, n_of_int (1 + ((1 + i mod 4) mod 13))) :: acc) in
   let ops = (CFail (O, n_of_int 1) :: build 1 O []) @ [CRead O] in
   match List.rev (run_sched slots_init ops) with
   | (_, r) :: _ -> Printf.sprintf "HS[%s]" (match r with None -> "nofail" | Some m -> err_text (int_of_n m - 1))
